@@ -1321,3 +1321,197 @@ Lemma history_irrelevant (s : site) (h1 h2 : list event) (fs : fsys) (r : reques
   run_history s (h1 ++ [EDisk fs; EReq r]) = run_history s h1 ++ [(fs, r, handle (with_fs s fs) r)] /\
   run_history s (h2 ++ [EDisk fs; EReq r]) = run_history s h2 ++ [(fs, r, handle (with_fs s fs) r)].
 Proof. split; rewrite run_history_app; reflexivity. Qed.
+
+(* ------------------------------------------------------------------------------------------ *)
+(* http.ServeContent: byte ranges and conditional requests                                      *)
+
+Definition range_inside (size : N) (r : N * N) : Prop := fst r + snd r <= size.
+
+Lemma parse_one_inside ra size r : parse_one ra size = Some (Some r) -> range_inside size r.
+Proof.
+  unfold parse_one, range_inside. intros H.
+  destruct (cut_at 45 ra) as [[st0 en0]|]; [|discriminate].
+  destruct (trim_spaces st0) as [|sc sr].
+  - destruct (trim_spaces en0) as [|c en']; [discriminate|].
+    destruct (c =? 45); [discriminate|].
+    destruct (atoi (c :: en')) as [z|]; [|discriminate].
+    destruct (z <? 0)%Z; [discriminate|].
+    injection H as <-. simpl. lia.
+  - destruct (atoi (sc :: sr)) as [z|]; [|discriminate].
+    destruct (z <? 0)%Z; [discriminate|].
+    destruct (size <=? Z.to_N z) eqn:Hs; [discriminate|].
+    apply N.leb_gt in Hs.
+    destruct (trim_spaces en0) as [|c en'].
+    + injection H as <-. simpl. lia.
+    + destruct (atoi (c :: en')) as [e|]; [|discriminate].
+      destruct (e <? Z.of_N (Z.to_N z))%Z eqn:He; [discriminate|].
+      apply Z.ltb_ge in He.
+      injection H as <-. simpl.
+      destruct (size <=? Z.to_N e) eqn:Hse.
+      * lia.
+      * apply N.leb_gt in Hse. lia.
+Qed.
+
+Lemma parse_specs_inside specs : forall size acc noov rs,
+  Forall (range_inside size) acc ->
+  parse_specs specs size acc noov = RRanges rs -> Forall (range_inside size) rs.
+Proof.
+  induction specs as [|s r IH]; intros size acc noov rs Hacc H; simpl in H.
+  - destruct acc as [|a acc'].
+    + destruct noov; [discriminate|]. injection H as <-. constructor.
+    + injection H as <-. change (Forall (range_inside size) (rev (a :: acc'))). apply Forall_rev. exact Hacc.
+  - destruct (trim_spaces s) as [|c ra'] eqn:Et.
+    + eapply IH; eauto.
+    + destruct (parse_one (c :: ra') size) as [[x|]|] eqn:Ep; [| |discriminate].
+      * eapply IH; [|exact H]. constructor; [|exact Hacc]. eapply parse_one_inside; eauto.
+      * eapply IH; eauto.
+Qed.
+
+Lemma parse_range_inside s size rs :
+  parse_range s size = RRanges rs -> Forall (range_inside size) rs.
+Proof.
+  unfold parse_range. intros H. destruct s as [|c s'].
+  - injection H as <-. constructor.
+  - destruct (has_prefix (c :: s') bytes_eq_prefix); [|discriminate].
+    eapply parse_specs_inside; [|exact H]. constructor.
+Qed.
+
+(* every range ServeContent sends lies inside the file, there is at least one, and together they
+   are no longer than the file *)
+Lemma serve_content_parts size q rs :
+  serve_content size q = CParts rs ->
+  Forall (range_inside size) rs /\ rs <> [] /\ sum_lens rs <= size.
+Proof.
+  unfold serve_content. intros H.
+  destruct (not_modified q); [discriminate|].
+  destruct (parse_range (range_req q) size) as [| |rs'] eqn:Ep.
+  - discriminate.
+  - destruct (size =? 0); discriminate.
+  - destruct (size <? sum_lens rs') eqn:Hs; [discriminate|]. apply N.ltb_ge in Hs.
+    destruct rs' as [|a rs'']; [discriminate|]. injection H as <-.
+    split; [eapply parse_range_inside; eauto|]. split; [discriminate|exact Hs].
+Qed.
+
+(* a validator that says "not modified" wins over any Range header; a failed If-Range makes the
+   answer the whole file *)
+Lemma serve_content_not_modified size q :
+  (c_inm q = 1 \/ (c_inm q = 0 /\ c_ims q = 1)) -> serve_content size q = CNotModified.
+Proof.
+  unfold serve_content, not_modified. intros [H|[H1 H2]].
+  - rewrite H. reflexivity.
+  - rewrite H1, H2. reflexivity.
+Qed.
+
+Lemma serve_content_if_range_fails size q :
+  c_ifr q = 2 -> serve_content size q = CNotModified \/ serve_content size q = CFull.
+Proof.
+  unfold serve_content, range_req. intros H. rewrite H. simpl.
+  destruct (not_modified q); [left; reflexivity|].
+  right. destruct (size <? 0); reflexivity.
+Qed.
+
+(* a piece taken inside the content is exactly the bytes [start, start+length) of it *)
+Lemma piece_is_slice (cnt : bytes) (r : N * N) :
+  range_inside (blen cnt) r ->
+  exists pre post, cnt = pre ++ piece cnt r ++ post /\
+                   length pre = N.to_nat (fst r) /\ length (piece cnt r) = N.to_nat (snd r).
+Proof.
+  unfold range_inside, blen, piece. intros H.
+  exists (firstn (N.to_nat (fst r)) cnt), (skipn (N.to_nat (snd r)) (skipn (N.to_nat (fst r)) cnt)).
+  split; [|split].
+  - rewrite firstn_skipn. rewrite firstn_skipn. reflexivity.
+  - rewrite firstn_length. lia.
+  - rewrite firstn_length, skipn_length. lia.
+Qed.
+
+(* every piece of body ServeContent sends for a content [cnt] is a slice of [cnt] at the place
+   its range says; 304 and 416 send none *)
+Lemma content_body_slices (cnt : bytes) (q : cond) (p : bytes) :
+  In p (content_body cnt (serve_content (blen cnt) q)) ->
+  exists pre post, cnt = pre ++ p ++ post /\
+    (p = cnt \/ exists r, p = piece cnt r /\ length pre = N.to_nat (fst r) /\
+                          length p = N.to_nat (snd r) /\ fst r + snd r <= blen cnt).
+Proof.
+  destruct (serve_content (blen cnt) q) as [| | |rs] eqn:E; simpl; intros H; try contradiction.
+  - destruct H as [<-|[]]. exists [], []. rewrite app_nil_r. split; [reflexivity|left; reflexivity].
+  - apply in_map_iff in H. destruct H as (r & <- & Hin).
+    apply serve_content_parts in E. destruct E as (Hall & _ & _).
+    rewrite Forall_forall in Hall. specialize (Hall r Hin).
+    destruct (piece_is_slice cnt r Hall) as (pre & post & E1 & E2 & E3).
+    exists pre, post. split; [exact E1|]. right. exists r. repeat split; assumption.
+Qed.
+
+Lemma no_content_answers (content : N -> bytes) (r : request) (a : answer) :
+  answer_status a = 304 \/ answer_status a = 416 ->
+  match a with AContent _ _ _ => answer_body content r a = [] | AOther _ => True end.
+Proof.
+  destruct a as [o|n enc ca]; [trivial|]. destruct ca; simpl; intros [H|H]; try discriminate;
+    destruct (q_meth r =? 1); reflexivity.
+Qed.
+
+(* THE range theorem: whatever Range / If-Range / If-None-Match / If-Modified-Since say, every
+   piece of file content in the answer of a site is a slice of the content of ONE node: the node
+   [handle] serves — inside the root at a permitted name, a regular file, not hidden (a
+   precompressed sibling that is hidden is never that node) *)
+Lemma respond_sound (content : N -> bytes) (s : site) (r : request) (q : cond) (p : bytes) :
+  In p (answer_body content r (respond (fun id => blen (content id)) s r q)) ->
+  exists n enc pre post,
+    handle s r = Serve n enc /\ q_meth r = 0 /\ In n (s_fs s) /\
+    served_from (s_pages s) (q_path r) (q_ae r) enc (n_path n) /\
+    n_dir n = false /\ is_hidden (s_fs s) (s_hide s) n = false /\
+    content (n_id n) = pre ++ p ++ post.
+Proof.
+  unfold respond. pose proof (site_sound s r) as S.
+  destruct (handle s r) as [c|c l|n enc|k|m] eqn:E; simpl; try contradiction.
+  destruct S as (Hm & Hin & Hfrom & Hdir & Hhid).
+  destruct (q_meth r =? 1) eqn:Hh; [contradiction|]. intros H.
+  apply content_body_slices in H. destruct H as (pre & post & Ec & _).
+  exists n, enc, pre, post. repeat split; try assumption.
+  unfold is_get_head in Hm. apply N.eqb_neq in Hh.
+  apply Bool.orb_true_iff in Hm. destruct Hm as [Hm|Hm]; apply N.eqb_eq in Hm; [exact Hm|contradiction].
+Qed.
+
+(* HEAD, 304 and 416 carry no file content at all *)
+Lemma respond_no_content (content : N -> bytes) (s : site) (r : request) (q : cond) :
+  let a := respond (fun id => blen (content id)) s r q in
+  q_meth r = 1 \/ answer_status a = 304 \/ answer_status a = 416 ->
+  answer_body content r a = [].
+Proof.
+  intros a H. subst a. destruct (respond (fun id => blen (content id)) s r q) as [o|n enc ca] eqn:E; [reflexivity|].
+  destruct H as [H|H].
+  - simpl. rewrite H. reflexivity.
+  - exact (no_content_answers content r (AContent n enc ca) H).
+Qed.
+
+(* headers other than the ones of the ordinary request change nothing unless the answer is a file *)
+Lemma respond_other (size_of : N -> N) (s : site) (r : request) (q : cond) o :
+  respond size_of s r q = AOther o -> o = handle s r /\ (forall n enc, o <> Serve n enc).
+Proof.
+  unfold respond. destruct (handle s r) eqn:E; intros H; try discriminate; injection H as <-;
+    (split; [reflexivity|intros; discriminate]).
+Qed.
+
+Lemma respond_no_cond (size_of : N -> N) (s : site) (r : request) n enc :
+  handle s r = Serve n enc -> respond size_of s r no_cond = AContent n enc CFull.
+Proof.
+  unfold respond. intros ->. unfold serve_content, no_cond. simpl.
+  destruct (size_of (n_id n) <? 0); reflexivity.
+Qed.
+
+Lemma range_validators (size : N) (q : cond) :
+  ((c_inm q = 1 \/ (c_inm q = 0 /\ c_ims q = 1)) -> serve_content size q = CNotModified) /\
+  (c_ifr q = 2 -> serve_content size q = CNotModified \/ serve_content size q = CFull).
+Proof. split; [apply serve_content_not_modified|apply serve_content_if_range_fails]. Qed.
+
+Lemma range_only_file_answers (size_of : N -> N) (s : site) (r : request) (q : cond) :
+  (forall o, respond size_of s r q = AOther o -> o = handle s r /\ (forall n enc, o <> Serve n enc)) /\
+  (forall n enc, handle s r = Serve n enc -> respond size_of s r no_cond = AContent n enc CFull).
+Proof. split; [intros o; apply respond_other|intros n enc; apply respond_no_cond]. Qed.
+
+(* the listing filter is EXACT: an entry of the directory is listed iff it is not hidden — by
+   identity, i.e. by what os.Stat sees: for a symbolic link, the identity of its followed target *)
+Lemma visible_kids_exact fs hide kids k :
+  In k (visible_kids fs hide kids) <-> In k kids /\ is_hidden fs hide k = false.
+Proof.
+  unfold visible_kids, is_hidden. rewrite filter_In, hidden_ids_spec, Bool.negb_true_iff. reflexivity.
+Qed.
